@@ -6,6 +6,8 @@ import (
 	"context"
 	"errors"
 
+	"github.com/tetratelabs/wazero/experimental"
+
 	"github.com/tetratelabs/wazero/internal/wasmruntime"
 	"github.com/tetratelabs/wazero/sys"
 )
@@ -108,4 +110,30 @@ func VerifInterpRun(bin []byte, export string, mem []byte, memMaxPages uint32, a
 		globals = append(globals, g.Val)
 	}
 	return res, trap, finalMem, globals, true
+}
+
+// VerifEvent is one listener notification observed on the interpreter.
+type VerifEvent struct {
+	Kind int // 1 before, 2 after, 3 abort
+	Fn   uint32
+	Vals []uint64
+}
+
+// VerifInterpEvents runs the export with a recording listener on every function and returns results and the event log.
+func VerifInterpEvents(bin []byte, export string, nfuncs int, args []uint64) (res []uint64, trap int, events []VerifEvent, ok bool) {
+	ctx := context.Background()
+	log := &verifLog{}
+	ls := make([]experimental.FunctionListener, nfuncs)
+	for i := range ls {
+		ls[i] = verifListener{log}
+	}
+	vi, err := verifInstantiate(ctx, bin, "m", nil, nil, ls, false)
+	if err != nil {
+		return nil, 0, nil, false
+	}
+	res, err = vi.inst.ExportedFunction(export).Call(ctx, args...)
+	for _, e := range log.ev {
+		events = append(events, VerifEvent{Kind: e.kind, Fn: e.fn, Vals: e.vals})
+	}
+	return res, VerifTrapKind(err), events, true
 }
